@@ -124,7 +124,7 @@ impl Prop for C06 {
         "C06"
     }
     fn rule(&self) -> String {
-        "Cases: (filter, event) pairs drawn from small shared pools (5 ids/authors, 6 kinds, times around 100 plus 0/1/u64::MAX, tag names incl. multi-letter and empty, values that are prefixes/NUL-extensions of each other) so that every clause is true about half the time; 45% of pairs are first forced to match and then have at most one clause broken (metamorphic family). Filters are built with OwnedFilter::new and, when all names are single letters, also parsed from JSON. Oracle: a 20-line NIP-01 predicate over the models. Non-trivial: >= 2 active clauses including >= 1 tag constraint.".into()
+        "Cases: (filter, event) pairs drawn from small shared pools (5 ids/authors, 6 kinds, times around 100 plus 0/1/u64::MAX, tag names incl. multi-letter and empty, values that are prefixes/NUL-extensions of each other) so that every clause is true about half the time; 45% of pairs are first forced to match and then have at most one clause broken (metamorphic family); 15% are 'straddle' pairs: the event's kind, id or pubkey is not listed but is made of the trailing bytes of one listed entry and the leading bytes of the next (or of the first entry of the following array), all other clauses matching. Filters are built with OwnedFilter::new and, when all names are single letters, also parsed from JSON. Oracle: a 20-line NIP-01 predicate over the models. Non-trivial: >= 2 active clauses including >= 1 tag constraint.".into()
     }
     fn assumptions(&self) -> Vec<String> {
         vec!["Filter tag constraints always carry a name and names are distinct (a JSON object member per name).".into()]
@@ -133,7 +133,7 @@ impl Prop for C06 {
         tier.pick(800_000, 4_000_000)
     }
     fn strategy(&self, _tier: Tier) -> BoxedStrategy<Case> {
-        (filter_strategy(), ev_strategy(), any::<bool>(), 0u8..20, any::<u16>())
+        (filter_strategy(), ev_strategy(), any::<bool>(), 0u8..24, any::<u16>())
             .prop_map(|(mut f, mut e, via_json, mode, sel)| {
                 if mode < 9 {
                     force_match(&mut f, &e);
@@ -166,6 +166,47 @@ impl Prop for C06 {
                     }
                     if f.kinds.is_empty() && mode == 3 {
                         f.kinds.push(e.kind.wrapping_add(1));
+                    }
+                }
+                if mode >= 20 {
+                    // "straddle" family: the event carries a value that is not listed but whose bytes appear in the
+                    // filter's packed arrays across the boundary of two neighbouring entries; every other clause is
+                    // made to match, so the answer hangs on that clause alone
+                    let i = sel as usize;
+                    match mode {
+                        20 if f.kinds.len() >= 2 => {
+                            let a = f.kinds[i % (f.kinds.len() - 1)].to_le_bytes();
+                            let b = f.kinds[i % (f.kinds.len() - 1) + 1].to_le_bytes();
+                            e.kind = if sel & 0x100 == 0 { u16::from_le_bytes([a[1], b[0]]) } else { u16::from_be_bytes([a[1], b[0]]) };
+                            let keep = f.kinds.clone();
+                            force_match(&mut f, &e);
+                            f.kinds = keep;
+                        }
+                        21 if f.ids.len() >= 2 => {
+                            let k = i % (f.ids.len() - 1);
+                            let cut = 2 * (1 + (sel as usize >> 4) % 31);
+                            e.id = format!("{}{}", &f.ids[k][cut..], &f.ids[k + 1][..cut]);
+                            let keep = f.ids.clone();
+                            force_match(&mut f, &e);
+                            f.ids = keep;
+                        }
+                        22 if f.authors.len() >= 2 => {
+                            let k = i % (f.authors.len() - 1);
+                            let cut = 2 * (1 + (sel as usize >> 4) % 31);
+                            e.pubkey = format!("{}{}", &f.authors[k][cut..], &f.authors[k + 1][..cut]);
+                            let keep = f.authors.clone();
+                            force_match(&mut f, &e);
+                            f.authors = keep;
+                        }
+                        23 if f.ids.len() >= 1 && f.authors.len() >= 1 => {
+                            // the end of the id array runs into the author array
+                            let cut = 2 * (1 + (sel as usize >> 4) % 31);
+                            e.id = format!("{}{}", &f.ids[f.ids.len() - 1][cut..], &f.authors[0][..cut]);
+                            let keep = f.ids.clone();
+                            force_match(&mut f, &e);
+                            f.ids = keep;
+                        }
+                        _ => {}
                     }
                 }
                 Case { f, e, via_json }
